@@ -875,24 +875,38 @@ def make_machine(sink, max_steps):
         u = self.add_ent(['mk', self.new_id(), mid, 'make', k], mid, 'inner')
         self.follow(fo, [old, u])
 
-    @stateful.rule(i=st.integers(0, 99), j=st.integers(0, 99), t=st.sampled_from(['p', 'p', 'copy', 'opaque']))
-    def wrap(self, i, j, t):
-      if not self.room():
-        return
-      mid = self.pick_mod(i)
+    def _wrap(self, mid, j, t):
       if t == 'p':
         # calibration: a functools.wraps wrapper around a lambda is named '<lambda>', so malt looks for
         # a lambda in the wrapper's source and a FRESH conversion fails (source recovery, C15's domain)
         # while a sibling wrapper's cached conversion works; such wrappers are not generated
         u = self.pick_ent(j, lambda e: e['plain'] and e['member'] != 'lam')
         if u is None:
-          return
-        self.add_ent(['wrap', self.new_id(), mid, 'deco', ['p', u]], mid, 'wrapper', plain=False,
-                     extra_mids=self.ents[u]['mids'])
-      elif t == 'copy':
-        self.add_ent(['wrap', self.new_id(), mid, 'deco', ['copy']], mid, 'wrapper', plain=False)
-      else:
-        self.add_ent(['wrap', self.new_id(), mid, 'deco', ['attr', mid, 'opaque']], mid, 'wrapper', plain=False)
+          return None
+        return self.add_ent(['wrap', self.new_id(), mid, 'deco', ['p', u]], mid, 'wrapper', plain=False,
+                            extra_mids=self.ents[u]['mids'])
+      if t == 'copy':
+        return self.add_ent(['wrap', self.new_id(), mid, 'deco', ['copy']], mid, 'wrapper', plain=False)
+      return self.add_ent(['wrap', self.new_id(), mid, 'deco', ['attr', mid, 'opaque']], mid, 'wrapper', plain=False)
+
+    @stateful.rule(i=st.integers(0, 99), j=st.integers(0, 99), t=st.sampled_from(['p', 'p', 'copy', 'opaque']),
+                   t2=st.sampled_from(['p', 'copy', 'opaque']), fo=FOLLOW, new_first=st.booleans())
+    def wrap(self, i, j, t, t2, fo, new_first):
+      """One decorator applied to different targets: the wrappers share a code object and differ in their cell;
+      a wrapper of copy.copy / of a do_not_convert function legitimately runs as-is, its siblings do not."""
+      if not self.room():
+        return
+      mid = self.pick_mod(i)
+      sib = None
+      for x in sorted(self.ents):
+        if self.ents[x]['member'] == 'wrapper' and self.ents[x]['mid'] == mid:
+          sib = x
+      u = self._wrap(mid, j, t)
+      if u is None or fo is None:
+        return
+      if sib is None and self.room():
+        sib = self._wrap(mid, j + 1, t2)
+      self.follow(fo, [u, sib] if new_first else [sib, u])
 
     @stateful.rule(i=st.integers(0, 99), v=st.integers(0, 3))
     def method(self, i, v):
